@@ -152,8 +152,12 @@ func (e *Exec) ctxErrValue(st *State, cancelled, deadline *Term) Value {
 	if cancelled.IsTrue() && deadline.IsFalse() {
 		return canc
 	}
-	// symbolic: not representable as a single interface value of one dynamic type -> caller must branch
-	return &CondIface{Conds: []*Term{deadline, And(cancelled, Not(deadline))}, Vals: []Value{dl, canc}}
+	if deadline.IsFalse() {
+		ci := canc.(Iface)
+		return Iface{T: ci.T, V: ci.V, NilIf: Not(cancelled)}
+	}
+	fail("context error with symbolic deadline state")
+	return nil
 }
 
 // CondIface: an interface value that is Vals[i] under Conds[i] (mutually exclusive) and nil otherwise.
